@@ -3,7 +3,7 @@
    by the correspondence runs of harness/cmd/c06). *)
 From Coq Require Import List ZArith Bool.
 Import ListNotations.
-From GU Require Import C06.Model C06.Proofs C06.Vfs C06.ProofsVfs.
+From GU Require Import C06.Model C06.Proofs C06.ProofsWf C06.Vfs C06.ProofsVfsRm C06.ProofsVfsCopy C06.ProofsVfsCopyDir C06.ProofsVfsList C06.ProofsVfs.
 Local Open Scope Z_scope.
 
 (* Query calls (read, the listings, exists / is-file / is-dir / is-empty, size, hash, path conversion) never change the tree,
@@ -94,14 +94,85 @@ Example copy_over_own_parent_witness :
   exec t (Copy (P [0;1;2;1] false) (P [0] false)) = Out (RErr EInvalid) t.
 Proof. split; reflexivity. Qed.
 
-(* Refinement M <= R: on a well-formed tree, for every call that M covers (mkdir, touch, write, read, ls, exists, is-file,
-   is-dir, is-empty, size) and that is free of kind conflicts, the mechanised model of the VFS code over back-end primitives
-   returns exactly the result and the tree of the reference model.  (Copy / Move / Rm / Clean are not covered by M:
-   for them the implementation is compared with R directly.) *)
+(* R preserves well-formedness (the ancestors of every entry are directories): for EVERY constrained call, including the
+   cp -r merge and mv, and hence along programs of any length.  Well-formedness is therefore a premise about the initial tree
+   only (checked on every observed dump by the correspondence). *)
+Theorem ref_preserves_wf : forall t c r t', wf t -> exec t c = Out r t' -> wf t'.
+Proof. exact exec_preserves_wf_l. Qed.
+Print Assumptions ref_preserves_wf.
+
+Theorem program_preserves_wf : forall cs t t', wf t -> run t cs = Some t' -> wf t'.
+Proof. exact run_preserves_wf_l. Qed.
+Print Assumptions program_preserves_wf.
+
+(* Refinement M <= R: on a well-formed tree, for every call in [m_exec] — mkdir, touch, write, read, ls, exists, is-file,
+   is-dir, is-empty, size, sub-directories, the recursive rm and clean, Move (destination resolved as mv, guards, rename), CopyToFile, and
+   Copy / CopyToDirectory of a file (the destination-shape table) — that is free of kind conflicts, the mechanised model of
+   the VFS code over back-end primitives returns exactly the result and the tree (as a list) of the reference model.
+   (_partial: LsRecursive / Walk, FindAll, hash and path conversion are not in M (ListDirTree has its own theorem below); Move's copy-then-remove fall-back is
+   modelled but is dead code when the back end's rename is POSIX, so the theorem says nothing about it.) *)
 Theorem vfs_refines_ref_partial : forall t c m r t',
   wf t -> m_exec t c = Some m -> exec t c = Out r t' -> m_r m = r /\ m_t m = t'.
 Proof. exact m_refines_r_l. Qed.
 Print Assumptions vfs_refines_ref_partial.
+
+(* ... lifted to programs of ANY length over the calls M covers, from a well-formed INITIAL tree: M yields the same list of
+   results and the same final tree as R, and has closed as many handles as it opened.  (_partial: M does not cover every call.) *)
+Theorem vfs_program_refines_ref_partial : forall cs t rs t' x,
+  wf t -> run_res t cs = Some (rs, t') -> m_run t cs = Some x -> exists o, x = (rs, t', o, o).
+Proof. exact m_program_refines_r_l. Qed.
+Print Assumptions vfs_program_refines_ref_partial.
+
+(* Termination of the recursive removal with explicit fuel: one more than the number of entries of the tree always suffices
+   (more precisely: more than the number of entries at or below the path), and the result is then rm -rf / rm -rf dir/*. *)
+Theorem vfs_rm_fuel_sufficient : forall t p,
+  wf t -> p <> [] -> exists h, m_rm (S (length t)) t p = Some (ROk, remove_sub t p, h).
+Proof. exact m_rm_refines. Qed.
+Print Assumptions vfs_rm_fuel_sufficient.
+
+Theorem vfs_rm_fuel_bound : forall f t p,
+  wf t -> p <> [] -> (length (sub t p) < f)%nat -> exists h, m_rm f t p = Some (ROk, remove_sub t p, h).
+Proof. exact m_rm_ok. Qed.
+Print Assumptions vfs_rm_fuel_bound.
+
+Theorem vfs_clean_fuel_sufficient : forall t p,
+  wf t -> dir_arg_conflict t p = false -> exists h, m_clean (S (length t)) t p = Some (ROk, remove_below t p, h).
+Proof. exact m_clean_refines. Qed.
+Print Assumptions vfs_clean_fuel_sufficient.
+
+(* The same for EVERYTHING M models, the recursive copy of a directory (copyFolder) included: same result, same tree as a
+   finite map (the order of the entries differs from R's), the tree stays well-formed, handles balanced — and the fuel
+   S (number of entries) given to the recursive functions always suffices (m_exec_all never runs out on a constrained call). *)
+Theorem vfs_all_refines_ref_partial : forall t c m r t',
+  wf t -> m_exec_all t c = Some m -> exec t c = Out r t' ->
+  m_r m = r /\ (forall q, find_entry (m_t m) q = find_entry t' q) /\ wf (m_t m) /\ m_opened m = m_closed m.
+Proof. exact m_all_refines_r_l. Qed.
+Print Assumptions vfs_all_refines_ref_partial.
+
+(* Termination of the recursive copy with explicit fuel: one more than the number of entries suffices for every directory
+   copy R constrains (into itself / over its own parent is refused before anything is created), and the result is cp -r. *)
+Theorem vfs_copy_dir_fuel_sufficient : forall t s str d dtr r t',
+  wf t -> is_dir t s = true -> r_copy t (P s str) (P d dtr) = Out r t' ->
+  exists t'' h, m_copy (S (length t)) t s str d dtr = Some (r, t'', h) /\ (forall q, find_entry t'' q = find_entry t' q) /\ wf t''.
+Proof. exact m_copy_dir_refines. Qed.
+Print Assumptions vfs_copy_dir_fuel_sufficient.
+
+(* Move never needs fuel beyond 1 when the back end's rename is POSIX: the resolution, the guards and the rename decide. *)
+Theorem vfs_move_refines_ref : forall t n s str d dtr r t' f,
+  wf t -> r_move t (P (n :: s) str) (P d dtr) = Out r t' -> exists h, m_move (S f) t (n :: s) str d dtr = Some (r, t', h).
+Proof. exact m_move_refines. Qed.
+Print Assumptions vfs_move_refines_ref.
+
+(* ListDirTree (depth-first, explicit fuel S (number of entries), proved sufficient): M lists exactly the paths R lists, as a set
+   (the order is the back end's), and the error cases coincide. *)
+Theorem vfs_tree_listing_refines_ref : forall t p tr r t',
+  wf t -> exec t (TreeL (P p tr)) = Out r t' ->
+  t' = t /\ match r with
+            | RNames lr => exists lm, m_tree t p = Some (RNames lm) /\ forall q, In q lm <-> In q lr
+            | _ => m_tree t p = Some r
+            end.
+Proof. exact m_tree_refines. Qed.
+Print Assumptions vfs_tree_listing_refines_ref.
 
 (* ... and every path through the modelled code closes the handles it opened (success and failure paths alike). *)
 Theorem vfs_handles_balanced_partial : forall t c m, m_exec t c = Some m -> m_opened m = m_closed m.
@@ -124,7 +195,21 @@ Example c06_wf_nonvacuous : wf [([0], D); ([0;1], F [7]); ([3], D)] /\
   m_exec [([0], D); ([0;1], F [7]); ([3], D)] (Touch (P [3;2] false)) =
     Some (mkM ROk [([0], D); ([0;1], F [7]); ([3], D); ([3;2], F [])] 1 1).
 Proof. split; [apply wf_b_sound|]; reflexivity. Qed.
+Example c06_rm_nonvacuous :
+  m_exec [([0], D); ([0;1], D); ([0;1;2], F [7]); ([0;3], F []); ([4], D)] (Rm (P [0] false)) = Some (mkM ROk [([4], D)] 18 18).
+Proof. reflexivity. Qed.
+Example c06_m_copy_dir_nonvacuous :
+  match m_exec_all [([0], D); ([0;1], F [7]); ([0;2], D); ([0;2;1], F [8]); ([3], D); ([3;0], D); ([3;0;4], F [9])]
+                   (Copy (P [0] false) (P [3] false)) with
+  | Some m => res_eqb (m_r m) ROk &&
+              tree_eqb (m_t m) [([0], D); ([0;1], F [7]); ([0;2], D); ([0;2;1], F [8]); ([3], D); ([3;0], D); ([3;0;4], F [9]);
+                                ([3;0;1], F [7]); ([3;0;2], D); ([3;0;2;1], F [8])]
+  | None => false
+  end = true.
+Proof. reflexivity. Qed.
 Example c06_cp_r_merge :
-  exec [([0], D); ([0;1], F [7]); ([3], D); ([3;0], D); ([3;0;2], F [9])] (Copy (P [0] false) (P [3] false))
-  = Out ROk [([0], D); ([0;1], F [7]); ([3], D); ([3;0], D); ([3;0;2], F [9]); ([3;0;1], F [7])].
+  match exec [([0], D); ([0;1], F [7]); ([3], D); ([3;0], D); ([3;0;2], F [9])] (Copy (P [0] false) (P [3] false)) with
+  | Out ROk t' => tree_eqb t' [([0], D); ([0;1], F [7]); ([3], D); ([3;0], D); ([3;0;2], F [9]); ([3;0;1], F [7])]
+  | _ => false
+  end = true.
 Proof. reflexivity. Qed.
